@@ -1183,7 +1183,51 @@ impl<'a> Gen<'a> {
     /// Statements that build cyclic / aliased / shared structure and garbage (for C03/C04).
     fn gc_stmt(&mut self) -> Vec<J> {
         let ls = self.vars_of(|t| *t == Ty::ListInt);
-        match self.rng.below(11) {
+        match self.rng.below(16) {
+            11 => {
+                // bound methods kept alive alone: the receiver is reachable only through them
+                let l = self.fresh("bl");
+                let m = self.fresh("bm");
+                let g = self.fresh("bg");
+                let recv = json!({"k": "list", "items": [json!({"k": "list", "items": [int(self.small_int())]}), strlit("e")]});
+                let drecv = json!({"k": "dict", "keys": [strlit("k")], "vals": [json!({"k": "list", "items": [int(1), strlit("v")]})]});
+                vec![assign(&m, dot(json!({"k": "index", "e": {"k": "list", "items": [recv]}, "i": int(0)}), "pop")),
+                     assign(&g, dot(json!({"k": "index", "e": {"k": "list", "items": [drecv]}, "i": int(0)}), "get")),
+                     assign(&l, callf("len", vec![json!({"k": "compr", "elt": json!({"k": "list", "items": [var("q_"), var("q_")]}), "clauses": [
+                        {"k": "for", "tg": {"k": "var", "n": "q_"}, "it": callf("range", vec![int(150)])}]})])),
+                     emit(call(var(&m), vec![])),
+                     emit(call(var(&g), vec![strlit("k")])),
+                     emit(call(var(&m), vec![])),
+                     emit(var(&l))]
+            }
+            12 => {
+                // struct fields holding containers (one shared), a set of tuples, a struct as a dict key
+                let sh = self.fresh("sl");
+                let st = self.fresh("st");
+                let d = self.fresh("sd");
+                let mut c = call(var("struct"), vec![]);
+                c["named"] = json!([named("p", var(&sh)), named("q", json!({"k": "dict", "keys": [strlit("k")], "vals": [var(&sh)]})),
+                                    named("r", callf("set", vec![json!({"k": "list", "items": [tuple(vec![int(1), strlit("a")]), tuple(vec![int(2), strlit("b")])]})]))]);
+                let mut k = call(var("struct"), vec![]);
+                k["named"] = json!([named("a", int(1)), named("b", tuple(vec![int(2), int(3)]))]);
+                vec![assign(&sh, self.expr(&Ty::ListInt, 2)), assign(&st, c),
+                     json!({"k": "expr", "e": mcall(dot(var(&st), "p"), "append", vec![int(77)])}),
+                     assign(&d, json!({"k": "dict", "keys": [k.clone()], "vals": [var(&st)]})),
+                     emit(var(&st)), emit(json!({"k": "index", "e": var(&d), "i": k}))]
+            }
+            13 => {
+                // a lambda with a default holding a fresh container, and a closure over a loop variable
+                let f = self.fresh("lf");
+                let p = self.fresh("p");
+                let g = self.fresh("lg");
+                let x = self.fresh("c");
+                vec![assign(&f, json!({"k": "lambda", "params": [param(&p, "normal", json!({"k": "list", "items": [int(self.small_int()), strlit("d")]}))], "body": var(&p)})),
+                     assign(&g, json!({"k": "compr", "elt": json!({"k": "lambda", "params": [], "body": tuple(vec![var(&x), json!({"k": "list", "items": [var(&x)]})])}),
+                        "clauses": [{"k": "for", "tg": {"k": "var", "n": x}, "it": callf("range", vec![int(3)])}]})),
+                     json!({"k": "expr", "e": mcall(call(var(&f), vec![]), "append", vec![int(9)])}),
+                     emit(call(var(&f), vec![])),
+                     emit(json!({"k": "compr", "elt": call(var("h_"), vec![]), "clauses": [{"k": "for", "tg": {"k": "var", "n": "h_"}, "it": var(&g)}]}))]
+            }
             0 => {
                 // a list containing itself, and an alias of it
                 let n = self.fresh("cy");
